@@ -22,7 +22,8 @@ RULE = ('family = one generated pipeline of lazy combinators (map, lazy filter, 
         'the stream or an index is accessed; distinct = distinct (pipeline, mode, k/i, '
         'schedule signature).')
 PROBES = ['stopped_inside_stream', 'look_ahead_fully_used', 'behind_thread_prefetch',
-          'index_access_into_batch', 'key_access']
+          'index_access_into_batch', 'key_access', 'prefix_of_an_endless_repetition',
+          'interspersed_inputs', 'strict_demand_checked_at_every_result']
 BUDGET = {
     'quick': {'families': 7000, 'wall_cap': 420, 'shrink_s': 12},
     'thorough': {'families': 70000, 'wall_cap': 5400, 'shrink_s': 30},
@@ -65,7 +66,8 @@ def gen_desc(rng, with_par):
         for j in range(rng.randrange(1, 4)):
             for _try in range(6):
                 op = rng.choice(['map', 'map', 'slice', 'batch', 'items', 'concat',
-                                 'zip', 'filter', 'local_shuffle', 'fragment_unbatch'])
+                                 'zip', 'filter', 'local_shuffle', 'fragment_unbatch',
+                                 'intersperse'])
                 sid = 'u%d' % (j + 1)
                 if op == 'map':
                     sts = [{'op': 'map', 'id': sid}]
@@ -81,6 +83,13 @@ def gen_desc(rng, with_par):
                 elif op == 'concat':
                     sts = [{'op': 'concat', 'n': rng.randrange(1, 4), 'offset': offset,
                             'kind': 'dict' if a.keys else 'list', 'map': sid}]
+                    offset += 100
+                elif op == 'intersperse':
+                    # an equally long partner (resized with the source) or a short one
+                    sts = [{'op': 'intersperse', 'n': rng.choice([0, 0, 2, 3]), 'offset': offset,
+                            'same_len': None, 'kind': 'dict' if a.keys else 'list', 'map': sid}]
+                    sts[0]['same_len'] = sts[0]['n'] == 0
+                    sts[0]['n'] = sts[0]['n'] or (a.n or 1)
                     offset += 100
                 elif op == 'zip':
                     sts = [{'op': 'zip', 'n': a.n if a.n is not None else 0,
@@ -109,6 +118,7 @@ def gen_desc(rng, with_par):
             if b is not None:
                 desc['stages'].append(st)
                 a = b
+        cyc = not with_par and rng.random() < 0.1
         if with_par:
             par = pargen.gen_par_stage(rng, backends=('t',), max_extra_b=1, catch_p=0.25)
             b = pargen.abs_apply(a, par)
@@ -123,6 +133,18 @@ def gen_desc(rng, with_par):
         n = L + rng.randrange(3, 9)
         desc['source']['n'] = n
         ok = _resize(desc)
+        if ok is not None and cyc:
+            # an endless repetition at the end: only prefixes of the first pass
+            # are consumed
+            if not ok.elems:
+                continue
+            desc['stages'].append({'op': 'cycle'})
+            ok2 = pargen.abs_apply(ok, desc['stages'][-1])
+            if ok2 is None:
+                desc['stages'].pop()
+            else:
+                ok2.first_pass = len(ok.elems)
+                ok = ok2
         if ok is not None:
             return desc, ok
     raise RuntimeError('no pipeline')
@@ -136,6 +158,10 @@ def _resize(desc):
             if not a.sized:
                 return None
             st['n'] = a.n
+        if st['op'] == 'intersperse' and st.get('same_len'):
+            if not a.sized or not a.n:
+                return None
+            st['n'] = a.n
         a = pargen.abs_apply(a, st)
         if a is None:
             return None
@@ -147,8 +173,11 @@ def gen(rng, tier, index):
     desc, a = gen_desc(rng, with_par)
     cases = [{'mode': 'construct', 'desc': desc}]
     nout = len(a.elems) if a.elems is not None else desc['source']['n']
+    endless = desc['stages'][-1]['op'] == 'cycle'
+    if endless:
+        nout = a.first_pass
     ks = sorted({0, 1, nout, rng.randrange(0, nout + 1), rng.randrange(0, nout + 1)})
-    for k in ks + [None]:
+    for k in ks + ([] if endless else [None]):
         c = {'mode': 'iter', 'desc': desc, 'k': k, 'epochs': 2 if k is None else 1}
         if with_par:
             c['sched'] = pargen.gen_sched(rng)
@@ -211,7 +240,7 @@ def analyse(desc, log, delivered_ids=None, exhausted=None):
     L, width = allowance(desc)
     out = []
     # a pool prefetch evaluates indices concurrently: no source order there
-    streaming = not any(st['op'] in ('slice', 'sort', 'shuffle', 'reshuffle') or
+    streaming = not any(st['op'] in ('slice', 'sort', 'shuffle', 'reshuffle', 'intersperse') or
                         (st['op'] == 'prefetch' and pargen.is_pool(st))
                         for st in desc['stages'])
     built = next((i for i, e in enumerate(log) if e[2] == 'built'), None)
@@ -221,6 +250,11 @@ def analyse(desc, log, delivered_ids=None, exhausted=None):
                     'user function %s ran while the pipeline was being constructed: %s'
                     % (early[0][3], list(early[0]))))
     peak = 0
+    # no stage that the property allows to run ahead (batch, shuffle buffer,
+    # prefetch buffer; fragments are delivered in parts): then, whenever the
+    # consumer holds a result, nothing beyond the delivered results has run
+    strict = not any(st['op'] in ('batch', 'local_shuffle', 'prefetch', 'parmap', 'fragment',
+                                  'unbatch') for st in desc['stages'])
     for ep, ev in enumerate(parrun.split_epochs(log)):
         evaluated, accounted = set(), set()
         seen = {}
@@ -253,6 +287,13 @@ def analyse(desc, log, delivered_ids=None, exhausted=None):
                 k += 1
             ahead = len(evaluated - accounted)
             peak = max(peak, ahead)
+            if strict and ahead and kind == 'deliver':
+                out.append(('evaluated_beyond_request', 'evaluated_beyond_request:%s' % _strict_tag(desc),
+                            'epoch %d: when result %d was handed over, source examples %s had been '
+                            'evaluated although they are part of no result delivered so far (no '
+                            'batch, shuffle buffer or prefetch stage in this pipeline)'
+                            % (ep, k - 1, sorted(evaluated - accounted)[:6])))
+                break
             if ahead > L:
                 out.append(('evaluated_too_early', 'evaluated_too_early:%s' % _stage_op(desc, e[3] if kind == 'call' else None),
                             'epoch %d, event %d: %d source examples evaluated beyond those '
@@ -262,6 +303,11 @@ def analyse(desc, log, delivered_ids=None, exhausted=None):
                 break
         else:
             left = evaluated - accounted
+            if strict and left and not (exhausted is not None and ep < len(exhausted) and exhausted[ep]):
+                out.append(('evaluated_beyond_request', 'evaluated_beyond_request:%s' % _strict_tag(desc),
+                            'epoch %d: the consumer stopped after %d results, yet source examples %s '
+                            'were evaluated (no batch, shuffle buffer or prefetch stage in this '
+                            'pipeline)' % (ep, k, sorted(left)[:6])))
             if exhausted is not None and ep < len(exhausted) and exhausted[ep] and left \
                     and not tail_allowed(desc):
                 out.append(('evaluated_unneeded', 'evaluated_unneeded:%s' % (
@@ -270,6 +316,14 @@ def analyse(desc, log, delivered_ids=None, exhausted=None):
                     'they are part of no delivered result and were not filtered'
                     % (ep, sorted(left)[:8])))
     return out, peak, L
+
+
+def _strict_tag(desc):
+    ops = {st['op'] for st in desc['stages']}
+    for o in ('intersperse', 'zip', 'concat', 'filter', 'catch', 'slice', 'items'):
+        if o in ops:
+            return o
+    return 'map'
 
 
 def _stage_op(desc, sid):
@@ -367,6 +421,14 @@ def run(case):
         if L and peak >= L - 2 * width and L > 2 * width + 1:
             probes['look_ahead_fully_used'] = 1
         stats['peak_ahead'] = peak
+        ops_ = {st['op'] for st in desc['stages']}
+        if 'cycle' in ops_:
+            probes['prefix_of_an_endless_repetition'] = 1
+        if 'intersperse' in ops_:
+            probes['interspersed_inputs'] = 1
+        if not ops_ & {'batch', 'local_shuffle', 'prefetch', 'parmap', 'fragment', 'unbatch'} \
+                and case['k'] not in (None, 0):
+            probes['strict_demand_checked_at_every_result'] = 1
     fired['mode_' + mode] = 1
     nontrivial = mode in ('index', 'key') or \
         (mode == 'iter' and len(desc['stages']) >= 2)
